@@ -4,7 +4,9 @@ import (
 	"bytes"
 	stdjson "encoding/json"
 	"fmt"
+	"runtime"
 	"strings"
+	"sync/atomic"
 	"unsafe"
 
 	"github.com/gabriel-vasile/mimetype"
@@ -46,6 +48,7 @@ type c03State struct {
 	t       *lib.Tree
 	trace   []c03Ev
 	restore func()
+	yield   bool // instrumented detectors yield the processor (widens windows for concurrent writers)
 }
 
 func c03Setup(ops []extOp) *c03State {
@@ -59,6 +62,9 @@ func c03Setup(ops []extOp) *c03State {
 	st.t = lib.Snapshot() // ids in DFS pre-order, original (un-instrumented) detectors
 	st.restore = mimetype.VerifInstrument(func(id int, d func([]byte, uint32) bool) func([]byte, uint32) bool {
 		return func(raw []byte, l uint32) bool {
+			if st.yield {
+				runtime.Gosched()
+			}
 			a := d(raw, l)
 			var p uintptr
 			if len(raw) > 0 {
@@ -291,7 +297,178 @@ func c03ConcurrentLimit(c *fw.Ctx, rounds int) {
 	mimetype.SetLimit(3072)
 }
 
+// c03ConcurrentExtend: one goroutine registers extensions (capture formats at the
+// root, sub-formats below application/pdf / text/plain / earlier extensions), the
+// other detects probes with every detector call recorded. A walk must be the
+// first-match walk of ONE tree: some version of the tree between the last
+// registration completed before the call and the last one started before its return.
+func c03ConcurrentExtend(c *fw.Ctx, rounds int) {
+	for round := 0; round < rounds; round++ {
+		st := c03Setup(nil)
+		st.yield = true
+		t := st.t
+		baseLen := len(t.Nodes)
+		type reg struct {
+			parent int // model id
+			mime   string
+			pre    []byte
+		}
+		pdfID, textID := t.Find("application/pdf", ".pdf"), t.Find("text/plain", ".txt")
+		probes := [][]byte{[]byte("%PDF-VERIF-X 1.7"), []byte("VERIF-X plain text probe")}
+		var regs []reg
+		K := 10
+		for k := 0; k < K; k++ {
+			pr := probes[k%2]
+			parent := 0
+			switch c.Rand.Intn(3) {
+			case 0:
+				parent = 0
+			case 1:
+				parent = []int{pdfID, textID}[k%2]
+			default:
+				for j := len(regs) - 1; j >= 0; j-- { // below an earlier extension that accepts the same probe
+					if string(regs[j].pre) == string(pr[:7]) {
+						parent = baseLen + j
+						break
+					}
+				}
+			}
+			regs = append(regs, reg{parent, fmt.Sprintf("application/x-verif-cx-%d-%d", round, k), pr[:7]})
+		}
+		parentOf := func(id int) int {
+			if id < baseLen {
+				return t.Nodes[id].Parent
+			}
+			return regs[id-baseLen].parent
+		}
+		childrenAt := func(p, v int) []int {
+			var ch []int
+			for k := v - 1; k >= 0; k-- {
+				if regs[k].parent == p {
+					ch = append(ch, baseLen+k)
+				}
+			}
+			if p < baseLen {
+				ch = append(ch, t.Nodes[p].Children...)
+			}
+			return ch
+		}
+		nameOf := func(id int) (string, string) {
+			if id < baseLen {
+				return t.Nodes[id].MIME, t.Nodes[id].Ext
+			}
+			return regs[id-baseLen].mime, ".cx"
+		}
+		var started, done int32
+		wdone := make(chan struct{})
+		go func() {
+			defer close(wdone)
+			for k, rg := range regs {
+				for i := 0; i < 30; i++ {
+					runtime.Gosched()
+				}
+				id, pre := baseLen+k, rg.pre
+				det := func(raw []byte, l uint32) bool {
+					runtime.Gosched()
+					a := bytes.HasPrefix(raw, pre)
+					st.trace = append(st.trace, c03Ev{id: id, ans: a, n: len(raw), limit: l}) // runs on the detecting goroutine
+					return a
+				}
+				atomic.StoreInt32(&started, int32(k+1))
+				if rg.parent == 0 {
+					mimetype.Extend(det, rg.mime, ".cx")
+				} else {
+					pm, _ := nameOf(rg.parent)
+					mimetype.Lookup(pm).Extend(det, rg.mime, ".cx")
+				}
+				atomic.StoreInt32(&done, int32(k+1))
+			}
+		}()
+		finished := false
+		for it := 0; it < 4000; it++ {
+			select {
+			case <-wdone:
+				if finished {
+					it = 4000
+				}
+				finished = true
+			default:
+			}
+			x := probes[it%2]
+			st.trace = st.trace[:0]
+			vLo := int(atomic.LoadInt32(&done))
+			mimetype.SetLimit(3072)
+			m := mimetype.Detect(x)
+			vHi := int(atomic.LoadInt32(&started))
+			ch := lib.ChainOf(m)
+			c.Eval(1)
+			c.Count("walks_under_concurrent_extend", 1)
+			okAny, why := false, ""
+			for v := vLo; v <= vHi && !okAny; v++ {
+				expect := -1
+				if cs := childrenAt(0, v); len(cs) > 0 {
+					expect = cs[0]
+				}
+				cur, good := 0, true
+				for _, e := range st.trace {
+					if e.id != expect {
+						good, why = false, fmt.Sprintf("version %d: consulted node %d where %d was due", v, e.id, expect)
+						break
+					}
+					if e.ans {
+						cur = e.id
+						expect = -1
+						if cs := childrenAt(e.id, v); len(cs) > 0 {
+							expect = cs[0]
+						}
+					} else {
+						sibs := childrenAt(parentOf(e.id), v)
+						expect = -1
+						for i, sid := range sibs {
+							if sid == e.id && i+1 < len(sibs) {
+								expect = sibs[i+1]
+							}
+						}
+					}
+				}
+				if good && expect != -1 {
+					good, why = false, fmt.Sprintf("version %d: walk ended although node %d was due", v, expect)
+				}
+				if good {
+					var want lib.Chain
+					for p := cur; p >= 0; p = parentOf(p) {
+						mm, ee := nameOf(p)
+						want = append(want, lib.Link{T: mm, Ext: ee})
+						if p == 0 {
+							break
+						}
+					}
+					if ch.Bare() != want.Bare() {
+						good, why = false, fmt.Sprintf("version %d: reported %s, accepting path %s", v, ch, want)
+					}
+				}
+				okAny = good
+			}
+			if !okAny {
+				c.Violate("walk-of-no-single-tree", fmt.Sprintf("concurrent-extend round %d", round), fmt.Sprintf("a detection that overlapped registrations %d..%d reports %s after %d detector calls; no version of the tree in that interval has this first-match walk (%s)", vLo, vHi, ch, len(st.trace), why), c03Payload{Entry: "concurrent-extend", In: x, InQ: fw.Quote(x, 40)})
+				break
+			}
+			if vHi > vLo {
+				c.Count("walks_overlapping_a_registration", 1)
+				c.Distinct(fmt.Sprintf("cx|%d|%d|%d", vLo, vHi, len(st.trace)))
+			}
+		}
+		<-wdone
+		st.restore()
+		mimetype.VerifResetTree()
+	}
+}
+
 func c03Run(c *fw.Ctx, b fw.Batch) {
+	if b.Kind == "concurrent-extend" {
+		c03ConcurrentExtend(c, b.N)
+		return
+	}
 	if b.Kind == "concurrent-limit" {
 		c03ConcurrentLimit(c, b.N)
 		return
@@ -362,7 +539,7 @@ func init() {
 	fw.Register(&fw.Prop{
 		ID:    "C03",
 		Level: "exploration",
-		Rule: "per child: several trees (the built-in tree and trees enlarged by random Extend histories of 1-10 extensions attached to the root, to built-ins at every depth and to earlier extensions, with predicates: always true/false, prefix, contains, length- and limit-dependent, a copy of a built-in sibling's detector, accepts-the-empty-input); per tree 6000 detections: every seed, then greybox mutation (byte flips, truncation, splices of two seeds, prefix transplant; an input giving a new accept path is kept and mutated further) x limits {0, default, len, random} through Detect and through the un-sliced VerifMatch with a different process-wide limit. Every detector call is recorded (node, buffer pointer, len, limit, answer) and checked online against the first-match depth-first specification, then against the independent iterative walk. In further rounds a second goroutine keeps calling SetLimit while the recorded detections run: every detector of a walk must see one (header, limit) pair and the header must be the first `limit` bytes for that very limit. " +
+		Rule: "per child: several trees (the built-in tree and trees enlarged by random Extend histories of 1-10 extensions attached to the root, to built-ins at every depth and to earlier extensions, with predicates: always true/false, prefix, contains, length- and limit-dependent, a copy of a built-in sibling's detector, accepts-the-empty-input); per tree 6000 detections: every seed, then greybox mutation (byte flips, truncation, splices of two seeds, prefix transplant; an input giving a new accept path is kept and mutated further) x limits {0, default, len, random} through Detect and through the un-sliced VerifMatch with a different process-wide limit. Every detector call is recorded (node, buffer pointer, len, limit, answer) and checked online against the first-match depth-first specification, then against the independent iterative walk. In further rounds a second goroutine registers extensions (capture formats at the root, sub-formats below application/pdf / text/plain / earlier extensions) while recorded detections run: each walk must be the first-match walk of ONE version of the tree between the registrations that bracket it. In other rounds a second goroutine keeps calling SetLimit while the recorded detections run: every detector of a walk must see one (header, limit) pair and the header must be the first `limit` bytes for that very limit. " +
 			"non-trivial = reported path of depth >= 2 below the root or >= 2 siblings accepting at some level (measured with the model); distinct = distinct (sequence of accepting nodes, number of detector calls, entry).",
 		Assumptions: []string{
 			"leaf detector funcs are shared between the library and the model (only the walk is independent); their purity is C04's concern",
@@ -374,13 +551,22 @@ func init() {
 				n = 300
 			}
 			bs := batches("trees", 16, n, 3000)
-			return append(bs, batches("concurrent-limit", 2, n*2000, 3000)...)
+			bs = append(bs, batches("concurrent-limit", 2, n*2000, 3000)...)
+			ce := batches("concurrent-extend", 4, n*3, 3000)
+			for i := range ce {
+				ce[i].Env = []string{fmt.Sprintf("GOMAXPROCS=%d", []int{2, 4, 8, 16}[i])}
+			}
+			return append(bs, ce...)
 		},
 		Run: c03Run,
 		Replay: func(c *fw.Ctx, payload stdjson.RawMessage) {
 			var p c03Payload
 			if err := stdjson.Unmarshal(payload, &p); err != nil {
 				fmt.Println("bad payload:", err)
+				return
+			}
+			if p.Entry == "concurrent-extend" {
+				c03ConcurrentExtend(c, 300)
 				return
 			}
 			if p.Entry == "concurrent-limit" {
